@@ -308,7 +308,7 @@ fn entry_json(t: &TxLogEntry) -> Value {
 		"credited": t.amount_credited.to_string(), "debited": t.amount_debited.to_string(),
 		"creation": t.creation_ts.timestamp() - 1_600_000_000,
 		"confirmation": t.confirmation_ts.map(|c| c.timestamp() - 1_600_000_000),
-		"slate": t.tx_slate_id.map(|u| u.to_string())})
+		"slate": t.tx_slate_id.map(|u| u.to_string()), "stored_tx": t.stored_tx.is_some()})
 }
 
 fn query_json(a: &RetrieveTxQueryArgs) -> Value {
@@ -324,6 +324,12 @@ fn query_json(a: &RetrieveTxQueryArgs) -> Value {
 		}
 	}
 	v
+}
+
+/// a transaction that can be stored and read back (one plain kernel; nothing in it is ever verified)
+fn dummy_tx() -> grin_core::core::Transaction {
+	use grin_core::core::{KernelFeatures, Transaction, TxKernel};
+	Transaction::empty().with_kernel(TxKernel::with_features(KernelFeatures::Plain { fee: FeeFields::new(0, 1000).unwrap() }))
 }
 
 struct Log {
@@ -387,11 +393,20 @@ fn gen_log(rng: &mut Rng, w: &Wallet, n: usize, case_no: u64) -> Result<Log, lib
 					u
 				};
 				t.tx_slate_id = Some(sid);
+				// sent entries sometimes have a stored transaction (an empty one, recognisable by its offset)
+				if (ty == TxLogEntryType::TxSent || ty == TxLogEntryType::TxSentCancelled) && rng.bool() {
+					t.stored_tx = Some(format!("{}.grintx", sid));
+				}
 			}
 			batch.save_tx_log_entry(t.clone(), &parent)?;
 			batch.commit()?;
 			Ok::<TxLogEntry, libwallet::Error>(t)
 		})?;
+		if e.stored_tx.is_some() {
+			let off = grin_keychain::BlindingFactor::from_slice(&rng.bytes(32));
+			let tx = dummy_tx().with_offset(off);
+			with_backend!(w, b, { b.store_tx(&e.tx_slate_id.unwrap().to_string(), &tx) })?;
+		}
 		entries.push(e);
 	}
 	Ok(Log { accounts, entries })
@@ -773,6 +788,24 @@ pub fn run(a: &Args) {
 			for (id, sid) in probes {
 				rep.eval();
 				rep.count("lookups");
+				// the stored transaction addressed by log id is that of the active account's entry with this id
+				if let Some(i) = id {
+					let mine = full.entries.iter().find(|e| e.parent_key_id == *acct && e.id == i);
+					let got = wal.get_stored_tx(Some(i), None);
+					let got_id = got.as_ref().ok().and_then(|o| o.as_ref().map(|s| s.id));
+					// (the stored transaction is kept per slate id: it exists if any entry with that slate id has one)
+					let want_id = mine.and_then(|e| e.tx_slate_id).filter(|sid| full.entries.iter().any(|x| x.tx_slate_id == Some(*sid) && x.stored_tx.is_some()));
+					let other = full.entries.iter().any(|e| e.parent_key_id != *acct && e.id == i && e.stored_tx.is_some() && e.tx_slate_id != mine.and_then(|m| m.tx_slate_id));
+					if got_id != want_id {
+						rep.violation(
+							"C19|stored-tx-lookup-by-id",
+							&format!("get_stored_tx(log id {}) with account {} active returned the stored transaction of slate {:?}; the active account's entry with that id has {:?}", i, label, got_id, want_id),
+							json!({"kind":"stored-tx-lookup","active_account": label, "id": i, "log": log_json()}),
+						);
+					} else if want_id.is_some() {
+						rep.count(if other { "stored-tx-lookups:id-shared-with-another-accounts-stored-tx" } else { "stored-tx-lookups" });
+					}
+				}
 				let r = owner::retrieve_txs(wal.inst.clone(), wal.m(), &None, false, id, sid, None);
 				let res = match r {
 					Ok(r) => r.1,
@@ -839,6 +872,13 @@ fn replay(rep: &mut Report, wal: &Wallet, path: &str) {
 		t.creation_ts = ts(e["creation"].as_i64().unwrap());
 		t.confirmation_ts = e["confirmation"].as_i64().map(ts);
 		t.tx_slate_id = e["slate"].as_str().map(|s| Uuid::parse_str(s).unwrap());
+		if e["stored_tx"].as_bool().unwrap_or(false) {
+			if let Some(sid) = t.tx_slate_id {
+				t.stored_tx = Some(format!("{}.grintx", sid));
+				let tx = dummy_tx();
+				let _ = (|| -> Result<(), libwallet::Error> { with_backend!(wal, b, { b.store_tx(&sid.to_string(), &tx) }) })();
+			}
+		}
 		let _ = (|| -> Result<(), libwallet::Error> {
 			with_backend!(wal, b, {
 				let mut batch = b.batch(wal.m())?;
@@ -852,6 +892,23 @@ fn replay(rep: &mut Report, wal: &Wallet, path: &str) {
 	let log = Log { accounts: accounts.clone(), entries };
 	let active_path = case["returned"].as_array().and_then(|r| r.get(0)).and_then(|e| e["acct"].as_str()).map(|s| s.to_string());
 	let _ = active_path;
+	if case["kind"] == "stored-tx-lookup" {
+		let i = case["id"].as_u64().unwrap_or(0) as u32;
+		for (label, acct) in accounts.iter() {
+			let _ = wal.set_account(label);
+			rep.eval();
+			let mine = log.entries.iter().find(|e| e.parent_key_id == *acct && e.id == i);
+			let got = wal.get_stored_tx(Some(i), None);
+			if std::env::var("GWV_DEBUG").is_ok() {
+				eprintln!("replay stored-tx lookup: account {} -> {:?}", label, got.as_ref().map(|o| o.as_ref().map(|s| s.id)));
+			}
+			let got_id = got.ok().and_then(|o| o.map(|s| s.id));
+			let want_id = mine.and_then(|e| e.tx_slate_id).filter(|sid| log.entries.iter().any(|x| x.tx_slate_id == Some(*sid) && x.stored_tx.is_some()));
+			if got_id != want_id {
+				rep.violation("C19|stored-tx-lookup-by-id", &format!("get_stored_tx(log id {}) with account {} active returned the stored transaction of slate {:?}; the active account's entry with that id has {:?}", i, label, got_id, want_id), case.clone());
+			}
+		}
+	}
 	if case["kind"] == "query" {
 		let args: RetrieveTxQueryArgs = serde_json::from_value(case["query"].clone()).unwrap();
 		// the active account of the original run is identified by label position: try all
